@@ -644,7 +644,13 @@ const char *UtilContext::get_num(const char *token, uint32_t *num)
 
   if (token[s-1] == 'h')
   {
-    return get_hex(token, num);
+    if (token[0] != '-') { return get_hex(token, num); }
+
+    // get_hex() stops at a '-' (it also parses ranges), so take the sign
+    // off first.
+    const char *end = get_hex(token + 1, num);
+    if (end != nullptr) { *num = (0 - *num) & 0xffffffff; }
+    return end;
   }
 
   s = 0;
